@@ -2,7 +2,7 @@
    The ring buffer is represented by its content; the only place the decoder sees the ring's
    geometry — the (first, end) split of Peek(3) — is the adversarial argument k. *)
 From Coq Require Import List NArith ZArith.
-From OAP Require Import Base.Bytes Base.Res Gen.Consts Model.Metadata Model.Header Model.Frame Model.Stream Proofs.StreamP.
+From OAP Require Import Base.Bytes Base.Res Gen.Consts Model.Metadata Model.Header Model.Frame Model.Stream Model.Chunks Proofs.StreamP Proofs.ChunksP.
 Import ListNotations.
 Local Open Scope N_scope.
 
@@ -41,6 +41,32 @@ Theorem C03_consumes_exactly_body : forall gz v codec h1 q1, mlen_ok v h1 ->
   forall p, fst (after_header gz v codec h1 q1) = Ok (SPkt p) ->
   (length (s_q (snd (after_header gz v codec h1 q1))) + frame_rest v h1 = length q1)%nat.
 Proof. intros gz v codec h1 q1 M. exact (proj1 (proj2 (proj2 (after_header_spec gz v codec h1 q1 M)))). Qed.
+
+(* WHOLE RUNS.  The TCP read loop (Model/Chunks.v: append each socket read, call Unpack until it asks for more, stop at
+   an error) delivers, for every byte string, every way of cutting it into socket reads and every buffer geometry
+   during every read, the same packets in the same order and ends the same way as when the bytes arrive in one
+   piece; when it ends waiting for more data even the state left behind is the same. *)
+Theorem C03_chunking_and_geometry_irrelevant : forall gz v codec chunks kss kss' j j' s, wf_pending v s -> chunks <> [] ->
+  let '(ps, e, sf) := run_chunks gz v codec kss j s chunks in
+  let '(ps1, e1, sf1) := run_chunks gz v codec kss' j' s [concat chunks] in
+  ps = ps1 /\ e = e1 /\ (e = ENeed -> sf = sf1).
+Proof. exact chunking_irrelevant. Qed.
+
+(* in particular on a fresh connection *)
+Corollary C03_fresh_connection : forall gz v codec chunks kss kss', chunks <> [] ->
+  let '(ps, e, sf) := run_chunks gz v codec kss 0 (mkS None []) chunks in
+  let '(ps1, e1, sf1) := run_chunks gz v codec kss' 0 (mkS None []) [concat chunks] in
+  ps = ps1 /\ e = e1 /\ (e = ENeed -> sf = sf1).
+Proof. intros gz v codec chunks kss kss' NE. apply chunking_irrelevant; [exact I|exact NE]. Qed.
+
+(* and no run ever panics or needs more than length+1 calls per read *)
+Theorem C03_run_total : forall gz v codec chunks kss j s, wf_pending v s ->
+  let '(ps, e, sf) := run_chunks gz v codec kss j s chunks in e <> EPanic /\ e <> EFuel /\ wf_pending v sf.
+Proof. exact run_chunks_total. Qed.
+
+Print Assumptions C03_chunking_and_geometry_irrelevant.
+Print Assumptions C03_fresh_connection.
+Print Assumptions C03_run_total.
 
 Print Assumptions C03_geometry_irrelevant.
 Print Assumptions C03_need_then_more.
